@@ -117,6 +117,16 @@ def run(ck, P):
             else:
                 ck.ob("C03.2-REASONS", f.site("loop_quit"), f.name == "m_ctx_quit" and bool(codes) and all(S(x.rhs) == f.params[0]["name"] for x in codes),
                       "%s stores quit with code %s" % (f.name, [S(x.rhs) for x in codes]))
+    # the reset belongs to the start of the run: a module's on_start (run from the evaluate pass) may already ask the loop to quit, and
+    # a reset placed after it forgets the request
+    lst = P.fn("loop_start", CTXC)
+    resets = [w for fld in ("quit", "quit_code") for w in P.writes_to_field("_ctx", fld) if w.fn is lst]
+    ucb = X.usercb_set()
+    early = [(ev, w) for ev in lst.calls() for w in resets if X.cg.event_may_reach(ev, ucb) and rules.may_precede(lst, ev, w)]
+    ck.ob("C03.2-REASONS", lst.site("reset precedes every callback"), bool(resets) and not early,
+          "loop_start resets quit/quit_code (lines %s) before any call that may run a user callback%s"
+          % (sorted({w.line for w in resets}), "" if not early else ": %s at line %d can run one (a module's on_start may call m_ctx_quit) and the "
+             "reset at line %d then forgets the request" % (S(early[0][0].e), early[0][0].line, early[0][1].line)))
     lq = list(P.calls_to("loop_quit"))
     for ev in lq:
         f = ev.fn
